@@ -1,0 +1,11 @@
+//go:build !verif
+
+package ast
+
+// The three functions below are the identity unless built with the "verif" tag.
+
+func simKBView(_ string, e *KnowledgeBase) *KnowledgeBase { return e }
+
+func simCatView(cat *Catalog) *Catalog { return cat }
+
+func simWMView(workingMem *WorkingMemory) *WorkingMemory { return workingMem }
